@@ -203,7 +203,6 @@ class _Gen:
             txt = "%s%senum %s {\n%s%s}\n" % (d, indent, name, "".join("%s  %s,\n" % (indent, self.fresh(sub)) for _ in range(n)), indent)
         elif k == "flags":
             n = r.choice([1, 2, 3, 8, 9, 16, 17, 31, 32]) if not r.chance(1, 20) else r.choice([33, 40, 64, 65])
-            n = min(n, 32)  # wit-parser 0.257 rejects > 32 flags
             txt = "%s%sflags %s {\n%s%s}\n" % (d, indent, name, "".join("%s  %s,\n" % (indent, self.fresh(sub)) for _ in range(n)), indent)
         elif k == "alias":
             t = self.ty(scope, self.o.max_depth, False)
